@@ -95,6 +95,10 @@ class Stopper(System):
         if t == m.stop_at:
             m.complete()
             m.entry["completed_at"] = t
+            f = CONFIG.get("fail")
+            if f and f.get("where") == "after_complete" and m.fail_me:
+                # the system that has just completed the model fails (a final-state check, a report that cannot be written ...)
+                raise_injected(m, f"injected failure right after complete() at t={t} of {m.sig}")
 
 
 class Work(System):
